@@ -11,7 +11,7 @@ use crate::rig::*;
 use crate::with_radio_kind;
 use crate::world::*;
 use lora_phy::lorawan_radio::LorawanRadio;
-use lora_phy::mod_params::{Bandwidth, CodingRate, RadioError, SpreadingFactor};
+use lora_phy::mod_params::RadioError;
 use lora_phy::mod_traits::RadioKind;
 use lora_phy::{LoRa, RxMode};
 use lorawan_device::async_device::radio::{PhyRxTx, RfConfig, RxConfig, RxMode as LwRxMode, RxStatus};
@@ -61,6 +61,10 @@ pub struct C18Case {
     pub seed: u8,
     /// SPI fault on the k-th SPI transaction after RxDone
     pub fault_at: Option<u16>,
+    /// modulation the reception is prepared with (index into exec14::dr_params: SF7/125, SF9/125, SF12/125 with
+    /// low-data-rate optimisation, SF7/250, SF8/500)
+    #[serde(default)]
+    pub dr: u8,
     /// known-finding triggers this case must stay away from (copied from the generator's avoid set)
     #[serde(default)]
     pub avoid: Vec<String>,
@@ -121,6 +125,7 @@ impl Shrinkable for C18Case {
         push(&|c| c.buf = 0, &mut v);
         push(&|c| c.buf /= 2, &mut v);
         push(&|c| c.seed = 0, &mut v);
+        push(&|c| c.dr = 0, &mut v);
         push(&|c| c.chip = if c.chip.is_126x() { ChipKind::Sx1261 } else { ChipKind::Sx1276 }, &mut v);
         v
     }
@@ -189,7 +194,10 @@ fn run<RK: RadioKind>(rk: RK, cx: &Ctx<'_>, buf: &mut [u8]) -> Result<Fetched, D
         Via::LwSingle | Via::LwContinuous => {
             let bb = lorawan_device::async_device::radio::RfConfig {
                 frequency: freq,
-                bb: lora_modulation::BaseBandModulationParams::new(SpreadingFactor::_7, Bandwidth::_125KHz, CodingRate::_4_5),
+                bb: {
+                    let (sf, bw, cr) = crate::exec14::dr_params(c.dr);
+                    lora_modulation::BaseBandModulationParams::new(sf, bw, cr)
+                },
                 max_payload_len: 255,
             };
             let _: &RfConfig = &bb;
@@ -224,7 +232,8 @@ fn run<RK: RadioKind>(rk: RK, cx: &Ctx<'_>, buf: &mut [u8]) -> Result<Fetched, D
         }
         Via::Driver | Via::CompleteRx | Via::GetRxResult => {
             let lora = radio.verif_lora();
-            let mdltn = lora.create_modulation_params(SpreadingFactor::_7, Bandwidth::_125KHz, CodingRate::_4_5, freq).expect("harness: modulation params");
+            let (sf, bw, cr) = crate::exec14::dr_params(c.dr);
+            let mdltn = lora.create_modulation_params(sf, bw, cr, freq).expect("harness: modulation params");
             let pkt = lora.create_rx_packet_params(8, c.implicit, c.cfg_len, true, true, &mdltn).expect("harness: packet params");
             let mode = if c.continuous { RxMode::Continuous } else { RxMode::Single(20) };
             must("prepare_for_rx", drive_now(world, lora.prepare_for_rx(mode, &mdltn, &pkt)));
@@ -505,6 +514,7 @@ impl Property for C18 {
             sig_rssi: 0,
             seed: 0,
             fault_at: None,
+            dr: *r.pick(&[0u8, 0, 1, 2, 2, 3, 4]),
             avoid: avoid.iter().cloned().collect(),
         };
         if tier == Tier::Thorough && run < GRID {
@@ -584,7 +594,7 @@ pub fn self_test() -> Result<(), String> {
     for chip in ALL_CHIPS {
         for via in ALL_VIAS {
             for (len, offset, bufsz) in [(12u8, 0u8, 64u16), (12, 250, 12), (65, 3, 64), (0, 0, 0)] {
-                let c = C18Case { chip, board: Board::default(), via, continuous: false, implicit: false, cfg_len: 255, buf: bufsz, len, offset, status_buf: 0x24, status_pkt: 0x24, rssi: 80, snr: 20, sig_rssi: 80, seed: 7, fault_at: None, avoid: vec![] };
+                let c = C18Case { chip, board: Board::default(), via, continuous: false, implicit: false, cfg_len: 255, buf: bufsz, len, offset, status_buf: 0x24, status_pkt: 0x24, rssi: 80, snr: 20, sig_rssi: 80, seed: 7, fault_at: None, dr: 0, avoid: vec![] };
                 let o = guarded_execute(&C18, &c, true)?;
                 let o2 = guarded_execute(&C18, &c, true)?;
                 if o2.stats.shape != o.stats.shape || o2.stats.counters != o.stats.counters || o2.trace != o.trace {
